@@ -8,7 +8,7 @@ RULE = ("random add/del/free/deliver/step/fork histories over 1-5 signals x 1-3 
         "every case in its own forked process; non-trivial = at least one signal callback ran and at least one "
         "restore check (last del / one-shot auto-delete / base free) was made; distinct = hash of the generated script")
 STEPS = [
-    dict(flavor="asan", harness="h_signal", args=[], cases=dict(quick=1500, thorough=60000),
+    dict(flavor="asan", harness="h_signal", args=[], cases=dict(quick=1200, thorough=16000),
          timeout=dict(quick=600, thorough=3000)),
 ]
 REG = dict(category="exploration",
